@@ -251,6 +251,7 @@ RunInfo run(const sim::Plan &plan) {
     ac.has_realloc = plan.get("alloc_realloc", 1) != 0;
     ac.has_calloc = plan.get("alloc_calloc", 1) != 0;
     ac.yield_points = plan.get("alloc_yield", 0) != 0;
+    ac.carve_recycled = plan.get("recycle_pages", 0) != 0;
     Ctx c;
     c.plan = &plan;
     c.parent = simalloc::create(ac);
@@ -259,6 +260,20 @@ RunInfo run(const sim::Plan &plan) {
     if (c.nworkers < 1) c.nworkers = 1;
     if (c.nworkers > MAXW) c.nworkers = MAXW;
     sim::begin(plan);
+    if (plan.get("recycle_pages", 0)) sim::set_page_recycling(true);
+    if (plan.get("prior_instance", 0)) {
+        // an earlier allocator instance in the same process: used, emptied and destroyed. The memory it gave back may be
+        // reused (contents intact) for pages of the allocator under test and for large blocks of its parent.
+        struct aws_allocator *prior = aws_small_block_allocator_new(c.parent, mt);
+        std::vector<void *> tmp;
+        static const size_t ps[] = {32, 64, 128, 256, 512};
+        int n = (int)plan.get("prior_instance", 0);
+        for (int k = 0; k < n * 5; k++) tmp.push_back(aws_mem_acquire(prior, ps[k % 5]));
+        for (void *q : tmp) aws_mem_release(prior, q);
+        aws_small_block_allocator_destroy(prior);
+        if (!sim::live_pages().empty()) sim::violation("c03:destroy-leak", "destroy of the earlier allocator instance left %zu page(s)", sim::live_pages().size());
+        sim::probe("prior_allocator_instance_destroyed");
+    }
     c.sba = aws_small_block_allocator_new(c.parent, mt);
     if (!c.sba) sim::violation("c03:new", "aws_small_block_allocator_new returned NULL");
     if (aws_small_block_allocator_bytes_active(c.sba) != 0) sim::violation("c03:bytes-active", "fresh allocator reports active bytes");
@@ -342,6 +357,10 @@ void gen(uint64_t seed, int tier, sim::Plan &p) {
     p.cfg["alloc_realloc"] = r.chance(0.8);
     p.cfg["alloc_calloc"] = r.chance(0.8);
     p.cfg["alloc_yield"] = r.chance(0.3);
+    if (r.chance(0.3)) {
+        p.cfg["recycle_pages"] = 1;
+        p.cfg["prior_instance"] = r.range(0, 3);
+    }
     static const std::vector<int64_t> sizes = {1, 8, 16, 31, 32, 33, 63, 64, 65, 127, 128, 129, 255, 256, 257, 511, 512, 513, 1024, 4096, 5000};
     int style = (int)r.below(4); // 0 mixed, 1 hammer one class (page crossing), 2 boundary sizes, 3 realloc heavy
     int64_t hammer = r.pick(std::vector<int64_t>{32, 64, 512, 17, 300});
